@@ -6,6 +6,7 @@ use vstd::string::*;
 use vstd::std_specs::cmp::*;
 use std::cmp::Ordering;
 use std::time::Duration;
+use std::collections::HashMap;
 use std::sync::Arc;
 
 verus! {
@@ -323,20 +324,60 @@ pub mod handlers {
     pub use glue::{parsed_name, lookup, acked, modified};
     // ---- ListTopicSubscriptions: stand-ins for the topic side (A-STUB / A-GLUE)
     pub struct TopicName { pub x: u64 }
-    pub struct Topic { pub x: u64 }
-    pub struct PublisherService { pub x: u64 }
+    pub struct TopicHandle { pub x: u64, pub name: TopicName }
+    pub struct PublisherService { pub topic_manager: Arc<TopicManager> }
     pub struct ListTopicSubscriptionsRequest { pub topic: String, pub page_size: i32, pub page_token: String }
     pub struct ListTopicSubscriptionsResponse { pub subscriptions: Vec<String>, pub next_page_token: String }
     pub struct NamedSubscription { pub name: SubscriptionName }
     pub mod list_glue {
         use super::*;
         pub uninterp spec fn parsed_topic(s: Seq<char>) -> Option<TopicName>;
-        pub uninterp spec fn topic_lookup(s: PublisherService, name: TopicName) -> Option<Arc<Topic>>;
+        pub uninterp spec fn topic_lookup(s: PublisherService, name: TopicName) -> Option<Arc<TopicHandle>>;
         /// `Topic::list_subscriptions(paging)` answered with this page (TopicActor::list_subscriptions, bundle B4)
-        pub uninterp spec fn listed(t: Topic, size: int, off: Option<usize>, names: Seq<Seq<char>>, next: Option<usize>) -> bool;
+        pub uninterp spec fn listed(t: TopicHandle, size: int, off: Option<usize>, names: Seq<Seq<char>>, next: Option<usize>) -> bool;
         pub uninterp spec fn display_sub(n: SubscriptionName) -> Seq<char>;
+        pub uninterp spec fn display_topic(n: TopicName) -> Seq<char>;
+        /// the project id a `projects/{id}` string parses to (parse_project_id, proved in bundle B3)
+        pub uninterp spec fn parsed_project(s: Seq<char>) -> Option<Seq<char>>;
+        pub uninterp spec fn boxed(b: Box<str>) -> Seq<char>;
+        pub uninterp spec fn listed_topics(m: TopicManager, project: Seq<char>, size: int, off: Option<usize>, names: Seq<Seq<char>>, next: Option<usize>) -> bool;
     }
-    pub use list_glue::{parsed_topic, topic_lookup, listed, display_sub};
+    pub use list_glue::{parsed_topic, topic_lookup, listed, display_sub, display_topic, parsed_project, listed_topics, boxed};
+    // ---- ListTopics: manager stand-in, prost mirrors
+    pub struct TopicManager { pub x: u64 }
+    pub struct TopicsPage { pub topics: Vec<Arc<TopicHandle>>, pub offset: Option<usize> }
+    pub struct ListTopicsRequest { pub project: String, pub page_size: i32, pub page_token: String }
+    pub struct ListTopicsResponse { pub topics: Vec<Topic>, pub next_page_token: String }
+    pub struct ProtoDuration { pub seconds: i64, pub nanos: i32 }
+    /// field-exact mirror of the prost `Topic` resource
+    pub struct Topic {
+        pub name: String,
+        pub labels: HashMap<String, String>,
+        pub message_storage_policy: Option<u8>,
+        pub kms_key_name: String,
+        pub schema_settings: Option<u8>,
+        pub satisfies_pzs: bool,
+        pub message_retention_duration: Option<ProtoDuration>,
+    }
+    impl TopicName {
+        #[verifier::external_body]
+        pub fn to_string(&self) -> (r: String) ensures r@ == display_topic(*self) { unimplemented!() }
+    }
+    pub open spec fn topic_names(p: TopicsPage) -> Seq<Seq<char>> { Seq::new(p.topics@.len(), |i: int| display_topic(p.topics@[i].name)) }
+    impl TopicManager {
+        /// TRUSTED (A-STUB): TopicManager::list_topics (its pagination tail is under contract in bundle B4)
+        #[verifier::external_body]
+        pub fn list_topics(&self, project_id: Box<str>, paging: Paging) -> (r: Result<TopicsPage, ListTopicsError>)
+            ensures (match r { Ok(p) => listed_topics(*self, boxed(project_id), paging.sz(), paging.off(), topic_names(p), p.offset), Err(_) => true })
+        { unimplemented!() }
+    }
+    // TRUSTED (A-STD): Option::filter keeps the value exactly when the predicate says so
+    pub assume_specification<T, P: FnOnce(&T) -> bool>[ Option::<T>::filter ](o: Option<T>, p: P) -> (r: Option<T>)
+        requires o.is_some() ==> call_requires(p, (&o.unwrap(),))
+        ensures (match o { None => r.is_none(), Some(x) => (r == Some(x) && call_ensures(p, (&x,), true)) || (r.is_none() && call_ensures(p, (&x,), false)) });
+    // TRUSTED (A-STR): String -> Box<str> keeps the text
+    pub assume_specification [<Box<str> as From<String>>::from] (s: String) -> (r: Box<str>)
+        ensures boxed(r) == s@;
     impl SubscriptionName {
         #[verifier::external_body]
         pub fn to_string(&self) -> (r: String) ensures r@ == display_sub(*self) { unimplemented!() }
@@ -344,7 +385,7 @@ pub mod handlers {
     pub struct SubscriptionsPage { pub subscriptions: Vec<Arc<NamedSubscription>>, pub offset: Option<usize> }
     /// the names on a page, as text
     pub open spec fn page_names(p: SubscriptionsPage) -> Seq<Seq<char>> { Seq::new(p.subscriptions@.len(), |i: int| display_sub(p.subscriptions@[i].name)) }
-    impl Topic {
+    impl TopicHandle {
         #[verifier::external_body]
         pub async fn list_subscriptions(&self, paging: Paging) -> (r: Result<SubscriptionsPage, ListSubscriptionsError>)
             ensures (match r { Ok(p) => listed(*self, paging.sz(), paging.off(), page_names(p), p.offset), Err(_) => true })
@@ -353,30 +394,49 @@ pub mod handlers {
     impl PublisherService {
         // assumed here, proved in bundle B6
         #[verifier::external_body]
-        pub async fn get_topic_internal(&self, topic_name: &TopicName) -> (r: Result<Arc<Topic>, Status>)
-            ensures (match topic_lookup(*self, *topic_name) { Some(t) => r == Ok::<Arc<Topic>, Status>(t), None => err_code(r) == Some(Code::NotFound) || err_code(r) == Some(Code::Internal) })
+        pub async fn get_topic_internal(&self, topic_name: &TopicName) -> (r: Result<Arc<TopicHandle>, Status>)
+            ensures (match topic_lookup(*self, *topic_name) { Some(t) => r == Ok::<Arc<TopicHandle>, Status>(t), None => err_code(r) == Some(Code::NotFound) || err_code(r) == Some(Code::Internal) })
         { unimplemented!() }
+//@fn src/api/publisher.rs PublisherService::list_topics tags=C13
+//@ ret r
+//@ ensures[C13,C17] request.m.page_size < 0 || parsed_project(request.m.project@).is_none() ==> err_code(r) == Some(Code::InvalidArgument)
+//@ # C13: the response is the page the manager answered for the request's project, the effective size and the token's
+//@ # offset: the topic names in order, and a next_page_token exactly when a further offset was reported
+//@ ensures[C13] (match r { Ok(resp) => exists|off: Option<usize>, next: Option<usize>, names: Seq<Seq<char>>| #![trigger listed_topics(*self.topic_manager, parsed_project(request.m.project@).unwrap(), norm_size(request.m.page_size as int), off, names, next)] listed_topics(*self.topic_manager, parsed_project(request.m.project@).unwrap(), norm_size(request.m.page_size as int), off, names, next) && names.len() == resp.m.topics@.len() && (forall|i: int| #![trigger names[i]] 0 <= i < names.len() ==> resp.m.topics@[i].name@ == names[i]) && (request.m.page_token@.len() == 0 ==> off.is_none()) && (forall|v: usize| request.m.page_token@ == tok(v) ==> off == Some(v)) && (match next { Some(o) => resp.m.next_page_token@ == tok(o), None => resp.m.next_page_token@.len() == 0 }), Err(_) => true })
+//@ closure /ListTopicsError::Closed/ ret st: Status
+//@ closure /ListTopicsError::Closed/ ensures st.code == Code::FailedPrecondition
+//@ closure /name: \w+\.name\.to_string\(\)/ ret tp: Topic
+//@ closure /name: \w+\.name\.to_string\(\)/ ensures tp.name@ == display_topic($1.name)
+//@ closure /PageToken::new/ ret txt: String
+//@ closure /PageToken::new/ ensures txt@ == tok($1)
+//@end
 //@fn src/api/publisher.rs PublisherService::list_topic_subscriptions tags=C13
 //@ ret r
 //@ # C13 / C17: a negative page size or an undecodable token is INVALID_ARGUMENT, as is a name that does not parse
 //@ ensures[C13,C17] request.m.page_size < 0 || parsed_topic(request.m.topic@).is_none() ==> err_code(r) == Some(Code::InvalidArgument)
 //@ # C13: the response is the page the topic answered for the effective size and the token's offset: its names in
 //@ # order, and a next_page_token exactly when the topic reported a further offset (the token of that offset)
-//@ ensures[C13] (match r { Ok(resp) => exists|t: Arc<Topic>, off: Option<usize>, next: Option<usize>, names: Seq<Seq<char>>| #![trigger listed(*t, norm_size(request.m.page_size as int), off, names, next)] listed(*t, norm_size(request.m.page_size as int), off, names, next) && names.len() == resp.m.subscriptions@.len() && (forall|i: int| #![trigger names[i]] 0 <= i < names.len() ==> resp.m.subscriptions@[i]@ == names[i]) && (request.m.page_token@.len() == 0 ==> off.is_none()) && (forall|v: usize| request.m.page_token@ == tok(v) ==> off == Some(v)) && (match next { Some(o) => resp.m.next_page_token@ == tok(o), None => resp.m.next_page_token@.len() == 0 }), Err(_) => true })
-//@ closure 1 ret st: Status
-//@ closure 1 ensures st.code == Code::FailedPrecondition
-//@ closure 2 ret txt: String
-//@ closure 2 ensures txt@ == display_sub($1.name)
-//@ closure 3 ret txt: String
-//@ closure 3 ensures txt@ == tok($1)
+//@ ensures[C13] (match r { Ok(resp) => exists|t: Arc<TopicHandle>, off: Option<usize>, next: Option<usize>, names: Seq<Seq<char>>| #![trigger listed(*t, norm_size(request.m.page_size as int), off, names, next)] listed(*t, norm_size(request.m.page_size as int), off, names, next) && names.len() == resp.m.subscriptions@.len() && (forall|i: int| #![trigger names[i]] 0 <= i < names.len() ==> resp.m.subscriptions@[i]@ == names[i]) && (request.m.page_token@.len() == 0 ==> off.is_none()) && (forall|v: usize| request.m.page_token@ == tok(v) ==> off == Some(v)) && (match next { Some(o) => resp.m.next_page_token@ == tok(o), None => resp.m.next_page_token@.len() == 0 }), Err(_) => true })
+//@ closure /ListSubscriptionsError::Closed/ ret st: Status
+//@ closure /ListSubscriptionsError::Closed/ ensures st.code == Code::FailedPrecondition
+//@ closure /\w+\.name\.to_string\(\)/ ret txt: String
+//@ closure /\w+\.name\.to_string\(\)/ ensures txt@ == display_sub($1.name)
+//@ closure /PageToken::new/ ret txt: String
+//@ closure /PageToken::new/ ensures txt@ == tok($1)
 //@end
     }
     /// the texts of a vector of strings
     pub open spec fn strs(v: Seq<String>) -> Seq<Seq<char>> { Seq::new(v.len(), |i: int| v[i]@) }
 //@item src/subscriptions/errors.rs enum ListSubscriptionsError drop-derive=thiserror::Error strip-attr=error
+//@item src/topics/errors.rs enum ListTopicsError drop-derive=thiserror::Error strip-attr=error
     pub mod parser {
         use super::*;
         pub(crate) use super::super::{parse_ack_id, parse_deadline_modifications, parse_paging};
+        // assumed here, proved in bundle B3
+        #[verifier::external_body]
+        pub fn parse_project_id(raw_value: &str) -> (r: Result<String, Status>)
+            ensures (match parsed_project(raw_value@) { Some(p) => r.is_ok() && r.unwrap()@ == p, None => err_code(r) == Some(Code::InvalidArgument) })
+        { unimplemented!() }
         #[verifier::external_body]
         pub fn parse_topic_name(raw_value: &str) -> (r: Result<TopicName, Status>)
             ensures (match parsed_topic(raw_value@) { Some(n) => r == Ok::<TopicName, Status>(n), None => err_code(r) == Some(Code::InvalidArgument) })
